@@ -39,6 +39,8 @@ type caseDesc struct {
 	// Secret (udp only): the endpoint is in addition protected by a shared secret, equal on both ends; certificates
 	// must be judged exactly as without it
 	Secret bool `json:"udp_shared_secret,omitempty"`
+	// Bundle: the CA option of both ends holds two certificates (an unrelated CA first, the issuing CA second)
+	Bundle bool `json:"ca_option_is_a_bundle_of_two,omitempty"`
 }
 
 func (d caseDesc) mode() string {
@@ -79,6 +81,9 @@ func runCase(d caseDesc) (established bool, targetBytes int, problem string, inc
 	}
 	if d.Secret {
 		cfg.Secret, cfg.ClientSecret = "s3cret", "s3cret"
+	}
+	if d.Bundle {
+		cfg.ClientCA, cfg.ServerCA = pki.Bundle(), pki.Bundle()
 	}
 	switch d.ClientCert {
 	case "own":
@@ -147,6 +152,14 @@ func allCases(withDNS bool) []caseDesc {
 					if sc == "match" && host == "localhost" {
 						// a certificate of a foreign CA that the client really presents, and an expired one of the right CA
 						ccs = append(ccs, "foreign-presented", "own-expired")
+					}
+					if host == "localhost" && sc == "match" && !ins {
+						// the CA option may hold several certificates
+						for _, cc := range []string{"none", "own", "foreign-presented"} {
+							for _, req := range []bool{false, true} {
+								out = append(out, caseDesc{Carrier: car, ServerCert: sc, Insecure: ins, ClientCert: cc, Require: req, Host: host, Bundle: true})
+							}
+						}
 					}
 					if host == "(none)" {
 						// the host-less spelling is about the server certificate only
